@@ -331,6 +331,7 @@ func engineIndexScan(ctx *Ctx) {
 			sp.N = 300
 		}
 		base := vlib.GenCommands(r, sp)
+		heavyWord := ""
 		if g := ctx.G(h); h%24 == (ctx.Shard*5+3)%24 && len(base) > 1 { // (spread evenly over the shards: such entries are slow to scan)
 			// an entry that repeats one word tens of thousands of times in one field (a pasted log, a generated list): term
 			// frequencies around and beyond 2^16
@@ -353,8 +354,12 @@ func engineIndexScan(ctx *Ctx) {
 			hk = "word-repeated"
 			_ = hk
 			prevKind = "histories-with-a-word-repeated-65536-times"
+			heavyWord = w
 		}
 		var extraWords []string
+		if heavyWord != "" {
+			extraWords = append(extraWords, heavyWord, heavyWord) // the repeated word is asked for after every step
+		}
 		if g := ctx.G(h); g%5 == 2 && len(base) > 1 {
 			// words that a 32-bit hash cannot tell apart (FNV-1a, FNV-1, CRC-32, Adler-32, djb2): one goes into an entry, the
 			// other is asked for (and sometimes sits in another entry) - a term dictionary keyed by such a hash merges them
